@@ -1,9 +1,120 @@
 """C19 add-on — separator protocol of hand-written list printers (`let mut first = true; if !first {sep}; item; first = false`):
 after an item has been written, the flag must be cleared before it is read again, otherwise two items are
-printed without a separator and the text no longer parses back (Face Display -> Face::from_str)."""
+printed without a separator and the text no longer parses back (Face Display -> Face::from_str).
+
+The flag is followed as a *cell*: the bool local of the `fmt` body itself, and — when `&mut flag` is handed to a crate-local helper
+(`write_separator(f, &mut first)`, `write_item(f, &mut first, x)`, any depth, any number of callers) — the dereferenced parameter inside
+that helper.  Reads, clears, separator writes and item writes are recognised in whichever body they occur; the exploration follows
+the flag's value through the calls."""
 import re
-from ..mir import call_matches, callee_name, op_local, op_const_int
-from ..flow import expr
+from ..mir import call_matches, callee_name, op_local, op_const_int, op_place, place_str
+from ..flow import expr, arg_place
+
+WRITE_RX = r"Formatter::<'a>::write_fmt$|Formatter::<'a>::write_str$|std::fmt::Write::write_(str|fmt|char)$"
+MAX_HELPER_DEPTH = 4
+
+
+class _Undecided(Exception):
+    pass
+
+
+def _is_cell(place, cell):
+    kind, n = cell
+    if place["l"] != n:
+        return False
+    if kind == "local":
+        return not place["p"]
+    return len(place["p"]) == 1 and place["p"][0]["k"] == "deref"
+
+
+def _read_polarity(body, operand, cell, depth=0):
+    """0 when the operand is the flag's value, 1 when it is its negation, None when it does not derive from the flag
+    (`first`, `!first`, `first == false`, `first != true`, copies of those)"""
+    if depth > 8 or operand["k"] == "const":
+        return None
+    p = operand["place"]
+    if _is_cell(p, cell):
+        return 0
+    if p["p"]:
+        return None
+    ds = body.defs_of(p["l"])
+    if len(ds) != 1 or ds[0][1] == "term":
+        return None
+    rv = ds[0][2]
+    if rv["k"] == "use":
+        return _read_polarity(body, rv["a"], cell, depth + 1)
+    if rv["k"] == "un" and rv["op"] == "Not":
+        r = _read_polarity(body, rv["a"], cell, depth + 1)
+        return None if r is None else 1 - r
+    if rv["k"] == "bin" and rv["op"] in ("Eq", "Ne"):
+        for x, y in ((rv["a"], rv["b"]), (rv["b"], rv["a"])):
+            c = op_const_int(y)
+            if c in (0, 1):
+                r = _read_polarity(body, x, cell, depth + 1)
+                if r is not None:
+                    flip = (c == 0) != (rv["op"] == "Ne")      # `x == false` / `x != true` negate
+                    return 1 - r if flip else r
+    return None
+
+
+class _View:
+    """what one body does with the flag cell"""
+
+    def __init__(self, prog, body, cell):
+        self.body, self.cell = body, cell
+        cfg = self.cfg = body.cfg()
+        self.reads = {}          # bb -> polarity
+        for bb, t in body.terms():
+            if t["k"] == "switch":
+                pol = _read_polarity(body, t["d"], cell)
+                if pol is not None:
+                    self.reads[bb] = pol
+        self.sets = {}           # bb -> [(stmt index, value)]
+        self.unknown_store = False
+        for bb, blk in enumerate(body.blocks):
+            if blk.get("cleanup"):
+                continue
+            for si, s in enumerate(blk["stmts"]):
+                if s["k"] == "assign" and _is_cell(s["place"], cell):
+                    v = op_const_int(s["rv"]["a"]) if s["rv"]["k"] == "use" else None
+                    if v not in (0, 1):
+                        self.unknown_store = True
+                    else:
+                        self.sets.setdefault(bb, []).append((si, v))
+        # calls that receive the cell by reference
+        self.passes = {}         # bb -> (callee body, param index)
+        cell_str = place_str({"l": cell[1], "p": [] if cell[0] == "local" else [{"k": "deref"}]})
+        for bb, t in body.calls():
+            for i, a in enumerate(t["args"]):
+                if op_place(a) is None:
+                    continue
+                try:
+                    ap = arg_place(body, t, i)
+                except Exception:
+                    ap = None
+                if ap != cell_str:
+                    continue
+                ty = body.local_ty(a["place"]["l"]) or ""
+                if not a["place"]["p"] and "bool" not in ty:
+                    continue
+                f = t["fn"]
+                cpath = f.get("resolved") if f.get("resolved_local") else (f.get("path") if f.get("local") else None)
+                callee = prog.body(cpath) if cpath else None
+                if callee is None or len(t["args"]) != callee.arg_count:
+                    raise _Undecided("flag handed to %s, which is not a crate-local function" % (callee_name(t),))
+                self.passes[bb] = (callee, i + 1)
+        # writes to the formatter: separator candidates are literal-only short writes guarded by a read of the flag
+        self.sep, self.items = [], []
+        for bb, t in body.calls():
+            if not call_matches(t, WRITE_RX):
+                continue
+            e = expr(body, t["args"][1]) if len(t["args"]) > 1 else ""
+            if re.match(r'^Arguments::from_str\(.{1,6}\)$', e) or (call_matches(t, r"write_(str|char)$") and len(e) <= 6):
+                if any(cfg.dominates(r, bb) and r != bb and _edge_guard(cfg, body, r, bb) for r in self.reads):
+                    self.sep.append(bb)
+                    continue
+            self.items.append((bb, t))
+        self.item_at = {bb: (body.path, bb) for bb, t in self.items}
 
 
 def run_sep(ctx, files=("src/face.rs", "src/keys.rs")):
@@ -13,7 +124,7 @@ def run_sep(ctx, files=("src/face.rs", "src/keys.rs")):
     for b in prog.bodies:
         if b.file not in files or b.name != "fmt":
             continue
-        # candidate flags: bool user variables assigned const true once and const false at least once
+        # candidate flags: bool user variables that are only ever assigned constants in this body (helpers may assign them through `&mut`)
         for l, nm in b.varnames.items():
             if b.local_ty(l) != "bool":
                 continue
@@ -28,74 +139,99 @@ def run_sep(ctx, files=("src/face.rs", "src/keys.rs")):
             if len(inits) != 1:
                 continue
             v0 = [v for d, v in consts if d is inits[0]][0]
-            trues = [inits[0]]
-            falses = [d for d, v in consts if v != v0]
-            if not falses or len(falses) + 1 != len(defs):
+            if any(v == v0 for d, v in consts if d is not inits[0]):
                 continue
-            cfg = b.cfg()
-            # reads of the flag: switches whose discriminant derives from the flag
-            reads = []
-            for bb, t in b.terms():
-                if t["k"] == "switch" and re.fullmatch(r"(Not\()?var:%s\)?" % re.escape(nm), expr(b, t["d"])):
-                    reads.append(bb)
-            if not reads:
-                continue
-            # writes to the formatter
-            writes = [(bb, t) for bb, t in b.calls() if call_matches(t, r"Formatter::<'a>::write_fmt$|Formatter::<'a>::write_str$|std::fmt::Write::write_(str|fmt|char)$")]
-            sep = []
-            items = []
-            init_bb = trues[0][0]
-            for bb, t in writes:
-                if not cfg.dominates(init_bb, bb):
-                    continue     # header written before the flag exists
-                e = expr(b, t["args"][1]) if len(t["args"]) > 1 else ""
-                if re.match(r'^Arguments::from_str\(.{1,6}\)$', e) or (call_matches(t, r"write_str$") and len(e) <= 6):
-                    # literal-only short write: a separator candidate if it is guarded by a read of the flag
-                    guarded = any(cfg.dominates(r, bb) and r != bb and _edge_guard(cfg, b, r, bb) for r in reads)
-                    if guarded:
-                        sep.append(bb)
+            init_bb = inits[0][0]
+            views = {}
+
+            def view(body, cell):
+                k = (body.path, cell)
+                if k not in views:
+                    views[k] = _View(prog, body, cell)
+                    if views[k].unknown_store:
+                        raise _Undecided("non-constant store to the flag in %s" % body.path)
+                return views[k]
+
+            bad_items = {}       # item id -> where the stale read happens
+            memo = {}
+
+            def walk(body, cell, start, fv, pend, depth, skip_before=None):
+                """explore `body` from block `start` with flag value fv and pending item `pend` (an item written while the flag still had its
+                initial value); follows at every read of the flag only the edge its value selects.  Returns the (fv, pend) pairs at the returns."""
+                key = (body.path, cell, start, fv, pend)
+                if key in memo:
+                    return memo[key]
+                memo[key] = set()       # recursion guard
+                if depth > MAX_HELPER_DEPTH:
+                    raise _Undecided("flag helpers nested deeper than %d" % MAX_HELPER_DEPTH)
+                vw = view(body, cell)
+                outs = set()
+                seen = set()
+                todo = [(start, fv, pend)]
+                while todo:
+                    st = todo.pop()
+                    if st in seen:
                         continue
-                items.append((bb, t))
-            if not sep:
+                    seen.add(st)
+                    bb, fv1, pend1 = st
+                    blk = body.blocks[bb]
+                    if blk.get("cleanup"):
+                        continue
+                    if bb in vw.sets:
+                        fv1 = vw.sets[bb][-1][1]
+                        if fv1 != v0:
+                            pend1 = None
+                    t = blk["term"]
+                    states = [(fv1, pend1)]
+                    if bb in vw.item_at and fv1 == v0 and (body is not b or cfg0.dominates(init_bb, bb)):
+                        states = [(fv1, vw.item_at[bb])]
+                    elif bb in vw.passes:
+                        callee, pi = vw.passes[bb]
+                        states = sorted(walk(callee, ("arg", pi), 0, fv1, pend1, depth + 1), key=repr)
+                        # the flag may have been set back to its initial value only by an explicit store, which `walk` reports
+                    succ = body.succs(bb)
+                    if t["k"] == "return":
+                        outs.update(states)
+                        continue
+                    for fv2, pend2 in states:
+                        nxt = succ
+                        if bb in vw.reads:
+                            if fv2 == v0 and pend2 is not None:
+                                bad_items.setdefault(pend2, (body.path, bb))
+                            val = fv2 if vw.reads[bb] == 0 else 1 - fv2
+                            nxt = [t["targets"][t["vals"].index(str(val))]] if str(val) in t["vals"] else [t["otherwise"]]
+                        for s2 in nxt:
+                            todo.append((s2, fv2, pend2))
+                memo[key] = outs
+                return outs
+
+            try:
+                walk(b, ("local", l), init_bb, v0, None, 0)
+            except _Undecided as e:
+                ctx.note("SEPARATOR: flag `%s` of %s not followed: %s" % (nm, b.path, e))
+                continue
+            if not any(v.sep for v in views.values()) or not any(v.reads for v in views.values()):
                 continue
             found += 1
-            # Explore (block, flag value, item written since the flag last changed) from the initialisation, following at every read of the flag
-            # only the edge its current value selects: a violation is a read that still sees the initial value although an item has been written.
-            # (`if first { first = false } else { sep }; item` clears on the only feasible way to the item: the flag's value matters, not just
-            # which blocks lie on a path.)
-            item_at = {bb: k for k, (bb, t) in enumerate(items)}
-            clear_at = {}
-            for d in falses:
-                clear_at.setdefault(d[0], []).append(d[1])
-            bad_items = {}
-            seen = set()
-            todo = [(init_bb, v0, None)]
-            while todo:
-                st = todo.pop()
-                if st in seen:
-                    continue
-                seen.add(st)
-                bb, fv, pend = st
-                if bb in clear_at:
-                    fv, pend = 1 - v0, None
-                t = b.blocks[bb]["term"]
-                if bb in item_at and fv == v0:
-                    pend = item_at[bb]
-                succ = b.succs(bb)
-                if bb in reads:
-                    if fv == v0 and pend is not None:
-                        bad_items.setdefault(pend, bb)
-                    val = fv if not expr(b, t["d"]).startswith("Not(") else 1 - fv
-                    succ = [t["targets"][t["vals"].index(str(val))]] if str(val) in t["vals"] else [t["otherwise"]]
-                for s2 in succ:
-                    todo.append((s2, fv, pend))
-            for k, (bb, t) in enumerate(items):
-                bad = bad_items.get(k)
-                ctx.instance("SEPARATOR", {"fn": b.path, "flag": nm, "item_write_line": t["line"], "flag_cleared_before_next_read": bad is None})
-                if bad is not None:
-                    ctx.violation("SEPARATOR", b.path, "item-%d" % (k + 1),
-                                  "after the item written at line %d the separator flag `%s` is not cleared before it is tested again: the next item is printed without a separator and the text does not parse back" % (t["line"], nm),
-                                  sites=["%s:%d" % (b.file, t["line"])])
+            # items of the fmt body first (stable numbering), then those written inside helpers
+            ordered = [views[(b.path, ("local", l))]] + [v for k, v in sorted(views.items(), key=lambda kv: kv[0][0]) if k != (b.path, ("local", l))]
+            k = 0
+            done = set()
+            for vw in ordered:
+                for bb, t in vw.items:
+                    if vw.body is b and not cfg0.dominates(init_bb, bb):
+                        continue      # header written before the flag exists
+                    iid = vw.item_at[bb]
+                    if iid in done:
+                        continue
+                    done.add(iid)
+                    k += 1
+                    bad = bad_items.get(iid)
+                    ctx.instance("SEPARATOR", {"fn": b.path, "flag": nm, "item_write_in": vw.body.path, "item_write_line": t["line"], "flag_cleared_before_next_read": bad is None})
+                    if bad is not None:
+                        ctx.violation("SEPARATOR", b.path, "item-%d" % k,
+                                      "after the item written at line %d the separator flag `%s` is not cleared before it is tested again: the next item is printed without a separator and the text does not parse back" % (t["line"], nm),
+                                      sites=["%s:%d" % (vw.body.file, t["line"])])
     if found == 0:
         ctx.anchor("SEPARATOR", "list-printer-idiom", "no `first`-flag list printer recognised in %s" % (files,))
 
